@@ -24,6 +24,8 @@ pub enum AOp {
     OpenGate,
     /// the first thread-local system panics inside its next run; the wait() that runs it is caught and the dispatcher used on
     ArmPanic,
+    /// setup() of the async dispatcher (waits for completion like world_mut(), runs no system)
+    Setup,
 }
 
 #[derive(Clone, Debug, PartialEq)]
@@ -54,6 +56,7 @@ impl ACase {
                 "WorldMut" => AOp::WorldMut,
                 "OpenGate" => AOp::OpenGate,
                 "ArmPanic" => AOp::ArmPanic,
+                "Setup" => AOp::Setup,
                 o => return Err(format!("unknown async op {}", o)),
             });
         }
@@ -71,7 +74,8 @@ pub fn generate(rng: &mut Rng) -> ACase {
     let n = 2 + rng.below(6);
     let mut ops = vec![];
     for _ in 0..n {
-        ops.push(match rng.below(11) {
+        ops.push(match rng.below(12) {
+            11 => AOp::Setup,
             10 => AOp::ArmPanic,
             0 | 1 | 2 => AOp::Dispatch,
             3 | 4 => AOp::Running,
@@ -133,7 +137,10 @@ fn run_inner(case: &ACase, counts_only: bool) -> Option<String> {
     d.setup();
     ctx.take();
     let me = std::thread::current().id();
-    ctx.gate_ms.store(40, Ordering::SeqCst);
+    // a third of the sequences that poll running() hold the systems much longer: there a poll that only answers once the systems
+    // have finished (instead of answering true at once) is told from a poll that happened to come late
+    let long_gate = case.ops.contains(&AOp::Running) && case.to_text().len() % 4 == 0;
+    ctx.gate_ms.store(if long_gate { 250 } else { 40 }, Ordering::SeqCst);
     let mut dispatched = 0usize; // dispatch() calls so far
     let mut tl_runs = 0usize; // wait() calls so far
     let mut tl_exp: std::collections::HashMap<usize, usize> = tls.iter().map(|u| (*u, 0usize)).collect(); // expected runs per thread-local system
@@ -187,12 +194,17 @@ fn run_inner(case: &ACase, counts_only: bool) -> Option<String> {
                     cur.extend(snap);
                     count(&cur, EvK::Enter, &staged) > count(&cur, EvK::Exit, &staged) && !ctx.gate_open.load(Ordering::SeqCst)
                 };
+                let t_poll = Instant::now();
                 let r = d.running();
+                let poll_ms = t_poll.elapsed().as_millis();
                 all.extend(ctx.take());
                 if counts_only {
                     continue;
                 }
                 let done = count(&all, EvK::Exit, &staged) == staged.len() * dispatched;
+                if long_gate && inside_before && !r && poll_ms >= 120 {
+                    return Some(format!("{}: running() was asked while a system was inside run (held there for 250 ms); it answered false, {} ms later, once the systems had finished, instead of reporting true", what, poll_ms));
+                }
                 if inside_before && !r && !done {
                     return Some(format!("{}: running() reported false while a system was inside run", what));
                 }
@@ -200,7 +212,7 @@ fn run_inner(case: &ACase, counts_only: bool) -> Option<String> {
                     return Some(format!("{}: running() reported false although only {} of {} system runs had finished", what, count(&all, EvK::Exit, &staged), staged.len() * dispatched));
                 }
             }
-            AOp::Wait | AOp::WaitNoTl | AOp::WorldRef | AOp::WorldMut => {
+            AOp::Wait | AOp::WaitNoTl | AOp::WorldRef | AOp::WorldMut | AOp::Setup => {
                 match op {
                     AOp::Wait => {
                         let armed = ctx.panic_uid.load(Ordering::SeqCst);
@@ -230,6 +242,7 @@ fn run_inner(case: &ACase, counts_only: bool) -> Option<String> {
                     AOp::WorldRef => {
                         let _ = d.world();
                     }
+                    AOp::Setup => d.setup(),
                     _ => {
                         let _ = d.world_mut();
                     }
